@@ -60,7 +60,7 @@ Definition inject_own_order (adjust : bool) : Prop :=
     h_cur s = None -> NoDup (own_emits body) -> (forall x, In x (own_emits body) -> ~ In x (h_nodes s)) ->
     restrict (own_emits body) (h_nodes (h_run adjust s (HCall h body))) = own_emits body.
 
-(* refuted for the code as it is: A emits A1, calls B (defined at or before A's definition point),
+(* refuted for the index bookkeeping used before 6cc3727: A emits A1, calls B (defined at or before A's definition point),
    emits A2 - the list ends up B, A2, A1 *)
 Theorem inject_own_order_refuted_lemma : ~ inject_own_order false.
 Proof.
